@@ -191,15 +191,40 @@ class ThreadSim:
 
         return glob
 
+    def _mk_profile(self, me: _T):
+        """Marks every return from code outside the library (an extension-module call such as an AES or HMAC operation, or a
+        third-party Python function) back into a library frame: the state such a call leaves behind (a buffer it filled, an
+        object it returned) is in flight exactly then."""
+        prefix = self.src_prefix
+
+        def prof(frame, event, arg):
+            if event == "c_return":
+                if frame.f_code.co_filename.startswith(prefix):
+                    owner = getattr(arg, "__self__", None)
+                    mod = getattr(arg, "__module__", None) or (type(owner).__module__ if owner is not None else None)
+                    if mod not in (None, "builtins"):
+                        self._marked = "extcall"
+                        self.marks_seen += 1
+            elif event == "return":
+                back = frame.f_back
+                if back is not None and back.f_code.co_filename.startswith(prefix) and not frame.f_code.co_filename.startswith(prefix):
+                    self._marked = "extcall"
+                    self.marks_seen += 1
+
+        return prof
+
     def _body(self, me: _T) -> None:
         me.sem.acquire()
         sys.settrace(self._mk_trace(me))
+        if self.policy.get("mode") == "marks":
+            sys.setprofile(self._mk_profile(me))
         try:
             me.result = me.fn()
         except BaseException as e:  # noqa: BLE001 - verdicts are the caller's business
             me.exc = e
         finally:
             sys.settrace(None)
+            sys.setprofile(None)
             me.done = True
             rest = [x for x in self.ts if not x.done and (x.waiting is None or x.waiting())] or [x for x in self.ts if not x.done]
             if rest:
